@@ -19,9 +19,11 @@ import PrologVerif.Proofs.ArithEval
 import PrologVerif.Proofs.ArithNoPanic
 import PrologVerif.Proofs.ArithFloat
 import PrologVerif.Proofs.ArithCompare
+import PrologVerif.Proofs.ArithMore
 namespace PrologVerif.C07
 open PrologVerif.Arith PrologVerif.Generated.Arith PrologVerif.ArithProofs
 open PrologVerif.Spec.ExactArith (Outcome inRange checked Expr bit)
+open PrologVerif (Term Args instErr)
 
 variable {F : Type} [FloatOps F]
 
@@ -241,6 +243,47 @@ theorem C07_no_nan_no_inf (L : FloatLaws F) (x y r : F) (hx : Finite x) (hy : Fi
     (addF x y = .ok r → Finite r) ∧ (subF x y = .ok r → Finite r) ∧
     (mulF x y = .ok r → Finite r) ∧ (divF x y = .ok r → Finite r) :=
   ⟨addF_finite L x y r hx hy, subF_finite L x y r hx hy, mulF_finite L x y r hx hy, divF_finite L x y r hx hy⟩
+
+/-- mixed mode: the integer operand of + - * / is converted with float64(n) and the float kernel is
+    used; `/` on two integers converts both (so the guard theorems above cover every mode) -/
+theorem C07_mixed_mode (x : I64) (y : F) :
+    add (.int x) (.flt y) = liftF (addF (FloatOps.ofInt x.val) y) ∧
+    add (.flt y) (.int x) = liftF (addF y (FloatOps.ofInt x.val)) ∧
+    sub (.int x) (.flt y) = liftF (subF (FloatOps.ofInt x.val) y) ∧
+    sub (.flt y) (.int x) = liftF (subF y (FloatOps.ofInt x.val)) ∧
+    mul (.int x) (.flt y) = liftF (mulF (FloatOps.ofInt x.val) y) ∧
+    mul (.flt y) (.int x) = liftF (mulF y (FloatOps.ofInt x.val)) ∧
+    div (.int x) (.flt y) = liftF (divF (FloatOps.ofInt x.val) y) ∧
+    div (.flt y) (.int x) = liftF (divF y (FloatOps.ofInt x.val)) ∧
+    (∀ z : I64, div (F := F) (.int x) (.int z) = liftF (divF (FloatOps.ofInt x.val) (FloatOps.ofInt z.val))) :=
+  mixed_mode x y
+
+/-- + - * / on finite numbers in EVERY mode (integer, float, mixed): a float returned as a value is
+    finite — the lemma that makes float identity well defined elsewhere -/
+theorem C07_no_nan_no_inf_functors (L : FloatLaws F) (x y : Num F) (hx : NumFinite x) (hy : NumFinite y) (r : F) :
+    (add x y = .ok (.flt r) → Finite r) ∧ (sub x y = .ok (.flt r) → Finite r) ∧
+    (mul x y = .ok (.flt r) → Finite r) ∧ (div x y = .ok (.flt r) → Finite r) :=
+  arith_value_finite L x y hx hy r
+
+/-- `**` (and `^` with a float operand): whatever math.Pow returns, a value that is returned is a
+    finite float (Inf ↦ float_overflow, NaN ↦ undefined, 0 for a non-zero base ↦ underflow) — the
+    guard logic of a library call, for all arguments -/
+theorem C07_power_value_finite (x y r : Num F) (h : power x y = .ok r) : ∃ v, r = .flt v ∧ Finite v :=
+  power_value_finite x y r h
+
+/-! ### eval's own errors -/
+
+/-- unbound ↦ instantiation_error; a non-evaluable atom/functor ↦ type_error(evaluable, Name/Arity),
+    raised before the arguments are evaluated; arity > 2 likewise (hand model of `eval`, tied by
+    `C07_tie_sources` and the stream c07.queries) -/
+theorem C07_eval_errors (v : Nat) (a f : String) (t u w : Term) (rest : Args) :
+    Eval.eval (F := F) (.var v) = .err instErr ∧
+    (a ≠ "pi" → Eval.eval (F := F) (.atom a) = .err (Eval.notEvaluable a 0)) ∧
+    (evalUnary (F := F) f = none → Eval.eval (F := F) (.app f (.cons t .nil)) = .err (Eval.notEvaluable f 1)) ∧
+    (evalBinary (F := F) f = none →
+      Eval.eval (F := F) (.app f (.cons t (.cons u .nil))) = .err (Eval.notEvaluable f 2)) ∧
+    Eval.eval (F := F) (.app f (.cons t (.cons u (.cons w rest)))) = .err (Eval.notEvaluable f (rest.length + 3)) :=
+  eval_errors v a f t u w rest
 
 /-! ### ties: regenerated facts against what the model and the theorems were written for -/
 
